@@ -3,7 +3,7 @@
 import json, os, shutil, sys
 id_, name, caught = sys.argv[1:4]
 needs = ' '.join(sys.argv[4:])
-src = f'/tmp/seed/{id_}/out'
+src = os.environ.get('SEEDROOT', '/tmp/seed') + f'/{id_}/out'
 dst = f'/verif/seeded/{name}'
 os.makedirs(dst, exist_ok=True)
 for f in ('patch.diff', 'demo.py', 'notes.md'):
